@@ -10,6 +10,7 @@ mod c05;
 mod c10;
 mod c11;
 mod attgen;
+mod c12;
 mod c14;
 mod c16;
 mod c17;
@@ -82,6 +83,7 @@ fn main() {
         "C08" => e2e_props::run(&cfg, "C08"),
         "C13" => e2e_props::run(&cfg, "C13"),
         "C15" => e2e_props::run(&cfg, "C15"),
+        "C12" => c12::run(&cfg),
         "C14" => c14::run(&cfg),
         "C16" => c16::run(&cfg),
         "C17" => c17::run(&cfg),
